@@ -113,6 +113,61 @@ def fresh_probe(spec):
     return json.loads(p.stdout.decode().strip().splitlines()[-1])
 
 
+def history_events(hist, probe, defaults):
+    """(runs in a forked child) the calls of one history, then the probe; what was observed"""
+    from harness import common as common_mod
+    events, res = [], None
+    for spec in hist + [probe]:
+        try:
+            with common_mod.cpu_limit(120):
+                res, before, after = c17_calls.do_call(spec)
+        except common_mod.ImplHang as e:
+            events.append(["mismatch", "c17.call", "call %r did not return: %s" % (spec, e)])
+            res, before, after = ["did-not-return"], [], []
+        except AssertionError as e:
+            events.append(["violation", "argument-modified", "call %r: %s" % (spec, e)])
+            res, before, after = None, [], []
+        if before != after:
+            i = next(i for i, (a, b) in enumerate(zip(before, after)) if a != b)
+            events.append(["violation", "argument-modified", "call %r modified its argument #%d" % (spec, i)])
+    for qn, pname, live, lit in defaults:
+        if lit is not None and live != lit:
+            events.append(["violation", "default-argument-mutated",
+                           "default of %s(%s) is now %r, its source literal is %r" % (qn, pname, live, lit)])
+    from rig.place_and_route.route import ner
+    memo = [[r_, [list(c) for c in v]] for r_, v in sorted(ner._concentric_hexagons.items())]
+    return {"events": events, "res": json.loads(json.dumps(res)), "memo": memo}
+
+
+def in_child(fn):
+    """run fn() in a forked child; its JSON-serialisable result (or {"crash": ...})"""
+    r, w = os.pipe()
+    pid = os.fork()
+    if pid == 0:
+        code = 0
+        try:
+            os.close(r)
+            try:
+                data = json.dumps(fn())
+            except BaseException as e:       # noqa: reported to the parent
+                import traceback
+                data = json.dumps({"crash": "%s: %s" % (type(e).__name__, traceback.format_exc()[-800:])})
+            with os.fdopen(w, "w") as f:
+                f.write(data)
+        except BaseException:
+            code = 1
+        finally:
+            os._exit(code)
+    os.close(w)
+    with os.fdopen(r) as f:
+        data = f.read()
+    os.waitpid(pid, 0)
+    try:
+        return json.loads(data)
+    except ValueError:
+        return {"crash": "child died without a result"}
+
+
 def run(ctx):
     from harness import common as common_mod
     ctx.extra["rule"] = RULE
@@ -148,27 +203,30 @@ def run(ctx):
         histories.append((hist, probe))
     with concurrent.futures.ThreadPoolExecutor(max_workers=12) as ex:
         fresh = list(ex.map(fresh_probe, [p for _, p in histories]))
-    radii_seen = []
+    # Every history runs in a forked child of this process, taken BEFORE any call of the library: each history
+    # then starts from the pristine module state of a fresh import (memos empty, defaults untouched), as a user's
+    # program would - state left by one history cannot mask what the next one would show.
+    memo_all = {}
     for (hist, probe), fr in zip(histories, fresh):
         case = {"history": hist, "probe": probe}
         same_fn = any(h["fn"] == probe["fn"] for h in hist)
         ctx.case(case, same_fn)
         ctx.traces += 1
         ctx.tag("probe_" + probe["fn"])
-        for spec in hist + [probe]:
-            try:
-                with common_mod.cpu_limit(120):
-                    res, before, after = c17_calls.do_call(spec)
-            except common_mod.ImplHang as e:
-                ctx.mismatch("c17.call", "call %r did not return: %s" % (spec, e), case)
-                res, before, after = ["did-not-return"], [], []
-            except AssertionError as e:
-                ctx.violation("argument-modified", "call %r: %s" % (spec, e), case)
-                res, before, after = None, [], []
-            if before != after:
-                i = next(i for i, (a, b) in enumerate(zip(before, after)) if a != b)
-                ctx.violation("argument-modified", "call %r modified its argument #%d" % (spec, i), case)
-        res = json.loads(json.dumps(res))
+        out = in_child(lambda: history_events(hist, probe, defaults))
+        if "crash" in out:
+            ctx.mismatch("c17.child", "the history could not be completed: %s" % out["crash"], case)
+            continue
+        for ev in out["events"]:
+            if ev[0] == "violation":
+                ctx.violation(ev[1], ev[2], case)
+            else:
+                ctx.mismatch(ev[1], ev[2], case)
+        res = out["res"]
+        for r_, m_ in out["memo"]:
+            memo_all.setdefault(r_, m_)
+            if memo_all[r_] != m_:
+                ctx.violation("memo-inconsistent", "memo entry for radius %d differs between two histories" % r_, case)
         if isinstance(res, list) and res[:1] == ["not-reproducible"]:
             ctx.violation("seeded-result-not-reproducible",
                           "probe %r: the same problem, the same seeded generator, vertices equal call to call but "
@@ -182,19 +240,14 @@ def run(ctx):
                               probe, json.dumps(res)[:200], json.dumps(fr)[:200]), case)
         if isinstance(res, list) and res[:1] == ["raised"]:
             ctx.tag("probe_raised_" + res[1])
-        for qn, pname, live, lit in defaults:
-            if lit is not None and live != lit:
-                ctx.violation("default-argument-mutated",
-                              "default of %s(%s) is now %r, its source literal is %r" % (qn, pname, live, lit), case)
     # ---- memo contents vs the Lean memo model ---------------------------------
-    from rig.place_and_route.route import ner
-    memo = dict(ner._concentric_hexagons)
+    memo = memo_all
     radii = sorted(memo)
     ctx.extra["memo_radii"] = radii
     if radii:
         model = ctx.lean([{"suite": "c17", "op": "memo", "radii": radii}])[0]
         for r, m in zip(radii, model):
-            if [list(c) for c in memo[r]] != m:
+            if memo[r] != m:
                 ctx.violation("memo-inconsistent", "memo entry for radius %d differs from concentric_hexagons(%d)" % (r, r),
                               {"radius": r})
     else:
@@ -207,11 +260,18 @@ def replay(ctx, payload):
     if "probe" not in case:
         return run(ctx)
     fr = fresh_probe(case["probe"])
-    for spec in case["history"] + [case["probe"]]:
-        res, before, after = c17_calls.do_call(spec)
-        if before != after:
-            ctx.violation("argument-modified", "call %r modified an argument" % (spec,), case)
-    res = json.loads(json.dumps(res))
+    out = in_child(lambda: history_events(case["history"], case["probe"], mutable_defaults()))
     ctx.case(case, True)
+    if "crash" in out:
+        ctx.mismatch("c17.child", "the history could not be completed: %s" % out["crash"], case)
+        return
+    for ev in out["events"]:
+        if ev[0] == "violation":
+            ctx.violation(ev[1], ev[2], case)
+        else:
+            ctx.mismatch(ev[1], ev[2], case)
+    res = out["res"]
+    if isinstance(res, list) and res[:1] == ["not-reproducible"]:
+        ctx.violation("seeded-result-not-reproducible", "the same seeded call gives different placements", case)
     if res != fr:
         ctx.violation("history-dependent-result", "probe differs from the fresh interpreter", case)
